@@ -23,7 +23,9 @@ RULE = (
     "duplicate tags, empty values, multi-byte tag names, NUL / prefix-related / 300-byte / 2000-byte values, tag items "
     "that are ints, floats, bools, null and nested lists; in a third of the histories an engine error is injected at a "
     "random put/delete/commit ordinal of a random operation - the enumeration of ALL ordinals is C07's). One snapshot "
-    "walk per operation at quiescence plus walks at random instants during bursts. Non-trivial = a walk over a store "
+    "walk per operation at quiescence plus walks at random instants during bursts; after every operation the lookup by id "
+    "(get_event) is compared with the keyspace for present and just-removed records; in half of the histories a second OS "
+    "process opens the same environment with the relay's configuration, queries and closes, and the keyspace is walked again. Non-trivial = a walk over a store "
     "with at least one record whose key set differs from the previous walk. Distinct = distinct canonical keyspaces walked."
 )
 ASSUMPTIONS = [
@@ -32,7 +34,7 @@ ASSUMPTIONS = [
     "for tag values that are not strings any of the renderings str()/tuple-str/JSON is accepted as the indexed text, but an entry must still belong to an existing record that carries such a tag",
 ]
 MIN_NONTRIVIAL = {"quick": 300, "thorough": 3000}
-REQUIRED_COUNTERS = ["walks.quiescent", "walks.concurrent", "injected_errors_fired", "records_checked"]
+REQUIRED_COUNTERS = ["walks.quiescent", "walks.concurrent", "injected_errors_fired", "records_checked", "get_event_checks", "peer_processes"]
 SHARD_TIMEOUT = {"quick": 500, "thorough": 3000}
 NOW = gen.T0
 
@@ -233,7 +235,43 @@ async def run_history(ops, counters, inject, seed):
         for inj in injections:
             if inj["before_op"] == 0:
                 plan_.arm(inj["ordinal"], "error")
-        await hist.drive(rig, ops, judge, clock=clock)
+        peer_at = {r.randrange(len(ops)) for _ in range(2)} if seed % 2 == 0 and ops else set()
+
+        async def after(i, st, prev, cur):
+            # every access path agrees with the keyspace: the lookup by id behind GET /e/<id> and the notifier
+            pe, ce = prev["events"], cur["events"]
+            sample = list(ce)[-4:] + [x for x in pe if x not in ce][:4]
+            for eid in sample:
+                try:
+                    got = await rig.storage.get_event(eid)
+                except Exception as e:
+                    got = e
+                counters["get_event_checks"] = counters.get("get_event_checks", 0) + 1
+                if (eid in ce) != (got is not None and not isinstance(got, Exception)):
+                    viols.append({"key": "get_event-disagrees/%s" % ("missing" if eid in ce else "stale"),
+                                  "msg": "[lmdb] after op %d the record %s is %s but get_event() returns %r" % (i, eid[:12], "present" if eid in ce else "gone", type(got).__name__ if got is not None else None),
+                                  "replay": {"ops": hist_json[: i + 1], "inject": inject, "seed": seed}})
+            if i in peer_at:
+                # another process works on the same environment and leaves again
+                import subprocess
+                import sys as _s
+                import os as _os
+
+                p = await asyncio.get_running_loop().run_in_executor(None, lambda: subprocess.run(
+                    [_s.executable, "-m", "vf.lmdbpeer", rig.config_path], cwd=_os.path.dirname(_os.path.dirname(_os.path.dirname(_os.path.abspath(__file__)))),
+                    env=dict(_os.environ, PYTHONPATH=_os.path.dirname(_os.path.dirname(_os.path.dirname(_os.path.abspath(__file__))))), stdout=subprocess.PIPE, stderr=subprocess.PIPE, timeout=120))
+                if p.returncode == 0:
+                    counters["peer_processes"] = counters.get("peer_processes", 0) + 1
+                    d2 = dump.dump(rig)
+                    examine(d2, "after-peer-process", i)
+                    if dump.lmdb_canonical(d2) != dump.lmdb_canonical(cur):
+                        viols.append({"key": "peer-process-changed-store", "msg": "[lmdb] a second process that only opened, queried and closed the environment changed its content",
+                                      "replay": {"ops": hist_json[: i + 1], "inject": inject, "seed": seed}})
+                else:
+                    counters["peer_process_failed"] = counters.get("peer_process_failed", 0) + 1
+                    counters["peer_process_error"] = p.stderr.decode("utf-8", "replace")[-300:]
+
+        await hist.drive(rig, ops, judge, clock=clock, after=after)
         plan_.disarm()
         # burst: resubmit-free stream of fresh events without waiting, walking concurrently
         keys = [ref.key_from_seed("c10-b%d" % i) for i in range(2)]
